@@ -37,6 +37,9 @@ TS3 = [F.EXPLICIT, F.IMPLICIT, b'1.2.840.10008.1.2.2']
 NRANDOM = {'quick': 1500, 'thorough': 200000}
 
 
+OPTIMIZED_SAMPLE = 1     # the first shard once more under python -O (vf/runner.py)
+
+
 def exhaustive(tier):
     return False
 
